@@ -125,7 +125,7 @@ def run(tier, seed):
         g, rho = rng.uniform(0.5, 25), rng.uniform(900, 8000)
         ca, cb, rac = rng.uniform(0.5, 2.0), rng.choice([0.25, 1 / 3, 0.3]), rng.uniform(500, 2000)
         dts = np.sort(10 ** np.array([rng.uniform(-3, 4) for _ in range(8)]))
-        eta = 10 ** rng.uniform(12, 24)
+        eta = 10 ** rng.choice([rng.uniform(12, 24), rng.uniform(-4, 3)])       # solid-state creep and liquid-like viscosities
         flux = np.asarray(CM.convection(dts, eta, k, kappa, alpha_e, thick, g, rho, ca, cb, rac)[0])
         cond = np.asarray(CM.conduction(dts, k, thick)[0])
         ck.case(("chain-dT", t), True)
@@ -136,7 +136,7 @@ def run(tier, seed):
             ck.violation({"fn": "convection", "clause": "convection_ge_conduction"}, "convection < conduction: %s vs %s" % (flux.tolist(), cond.tolist()), det)
         if np.any(np.diff(cond) < 0) or np.any(cond <= 0):
             ck.violation({"fn": "conduction", "clause": "monotone_in_contrast"}, "conductive flux not monotone", det)
-        etas = np.sort(10 ** np.array([rng.uniform(10, 26) for _ in range(8)]))
+        etas = np.sort(10 ** np.array([rng.uniform(-4, 26) for _ in range(8)]))
         fl2 = np.asarray(CM.convection(float(dts[4]), etas, k, kappa, alpha_e, thick, g, rho, ca, cb, rac)[0])
         if np.any(np.diff(fl2) > 1e-12 * fl2[:-1]):
             ck.violation({"fn": "convection", "clause": "monotone_in_viscosity"}, "convective flux increases with viscosity: %s" % fl2.tolist(), det)
